@@ -153,9 +153,9 @@ def check_newton(rng, n, res):
     for c in usable:
         kinds[c['name']] = kinds.get(c['name'], 0) + 1
     res['newton_distribution'] = kinds
-    path = os.path.join(COQ, 'gprops', 'K_newton_cases.v')
+    path = os.path.join(COQ, 'gprops', 'K_newton_cases_%d.v' % os.getpid())
     newton_case_file(usable, path)
-    rc, out = coqc('gprops/K_newton_cases.v')
+    rc, out = coqc('gprops/K_newton_cases_%d.v' % os.getpid())
     tup = parse_tuples(out) if rc == 0 else None
     if tup is None or len(tup) != len(usable):
         res['mismatches'].append('newton: could not evaluate the model on the recorded traces: %s' % out[-400:])
@@ -222,9 +222,9 @@ def check_diffmat(rng, ns, res):
         lines.append('Definition t%d := eqtab (Dmat_float_table %d %s %s) %s.' % (k, n, coq_list([fl(x) for x in topc]), fl(scale), tab))
         names.append('t%d' % k)
     lines.append('Eval vm_compute in %s.' % coq_list(names))
-    path = os.path.join(COQ, 'gprops', 'K_diffmat_cases.v')
+    path = os.path.join(COQ, 'gprops', 'K_diffmat_cases_%d.v' % os.getpid())
     open(path, 'w').write('\n'.join(lines) + '\n')
-    rc, out = coqc('gprops/K_diffmat_cases.v')
+    rc, out = coqc('gprops/K_diffmat_cases_%d.v' % os.getpid())
     m = re.search(r'=\s*\[(.*)\]\s*:\s*list bool', out, flags=re.S)
     if rc != 0 or not m:
         res['mismatches'].append('diffmat: model evaluation failed: %s' % out[-400:])
